@@ -87,6 +87,66 @@ def tables():
     return class_table(tree, "PathIO"), class_table(tree, "AsyncPathIO")
 
 
+def memory_file_own_position():
+    """True only when `MemoryPathIO._open` hands out, on every path, a fresh object of a class of the module whose
+    `seek`, `read` and `write` position the node's BytesIO from the object's own `position` before they work and
+    record the position afterwards.  Any other shape gives False (the proof then does not go through)."""
+    src_dir = os.path.join(os.environ.get("AIOFTP_REPO", "/repo"), "src")
+    with open(os.path.join(src_dir, "aioftp", "pathio.py")) as f:
+        tree = ast.parse(f.read())
+    classes = {n.name: n for n in tree.body if isinstance(n, ast.ClassDef)}
+    mem = classes.get("MemoryPathIO")
+    if mem is None:
+        return False
+    opener = next((n for n in mem.body if isinstance(n, ast.AsyncFunctionDef) and n.name == "_open"), None)
+    if opener is None:
+        return False
+    returned = set()
+    for n in ast.walk(opener):
+        if isinstance(n, ast.Return):
+            if not isinstance(n.value, ast.Name):
+                return False
+            returned.add(n.value.id)
+    if len(returned) != 1:
+        return False
+    var = next(iter(returned))
+    handle_classes = set()
+    for n in ast.walk(opener):
+        targets = []
+        if isinstance(n, ast.Assign):
+            targets = n.targets
+        elif isinstance(n, (ast.AugAssign, ast.AnnAssign)):
+            targets = [n.target]
+        if any(isinstance(t, ast.Name) and t.id == var for t in targets):
+            v = n.value
+            if not (isinstance(n, ast.Assign) and len(targets) == 1 and isinstance(v, ast.Call) and isinstance(v.func, ast.Name) and v.func.id in classes):
+                return False
+            handle_classes.add(v.func.id)
+        elif any(isinstance(t, ast.Tuple) for t in targets) and any(isinstance(x, ast.Name) and x.id == var for t in targets for x in ast.walk(t)):
+            return False
+    if len(handle_classes) != 1:
+        return False
+    cls = classes[next(iter(handle_classes))]
+    fns = {n.name: n for n in cls.body if isinstance(n, ast.FunctionDef)}
+    if any(isinstance(n, ast.AsyncFunctionDef) for n in cls.body):
+        return False
+    want_content = "content = self.node.content\ncontent.seek(self.position, io.SEEK_SET)\nreturn content"
+    shapes = {
+        "_content": want_content,
+        "seek": "self.position = self._content().seek(offset, whence)\nreturn self.position",
+        "read": "content = self._content()\ndata = content.read(*args)\nself.position = content.tell()\nreturn data",
+        "write": "content = self._content()\ncount = content.write(data)\nself.position = content.tell()\nreturn count",
+        "__init__": "self.node = node\nself.position = position",
+    }
+    for name, want in shapes.items():
+        fn = fns.get(name)
+        if fn is None or _unparse(_strip_doc(fn.body)) != want:
+            return False
+    if set(fns) - set(shapes):
+        return False
+    return True
+
+
 def _nats(s):
     return "[" + ", ".join(str(ord(c)) for c in s) + "]"
 
@@ -135,6 +195,10 @@ def gen_pathio():
         "def asyncPathioMethods : List BackendMethod := [",
         ",\n".join(_entry(e) for e in a),
         "]",
+        "",
+        "/-- `MemoryPathIO._open` returns, on every path, a fresh `MemoryFile`, whose `seek`/`read`/`write` work from the",
+        "    file's own position (exact shapes checked by the translator; any other shape gives `false`) -/",
+        "def memoryFileOwnPosition : Bool := %s" % ("true" if memory_file_own_position() else "false"),
         "",
         "end Generated.PathIO",
         "",
